@@ -378,9 +378,21 @@ def routeWarnOf (vsrs : Map VSR) (v : VS) (pr : String × String) : Option Strin
   | some r => if vsrFits r v.host pr.1 then none else some ("vsr-invalid:" ++ vsrKeyOf v pr.2)
   | none => some ("vsr-missing:" ++ vsrKeyOf v pr.2)
 
-/-- `buildVirtualServerRoutes`: every `route` entry, in order, either attaches the referenced route or warns. -/
+def wVsrDuplicate (key : String) : String := "vsr-duplicate:" ++ key
+
+/-- One `route` entry of `buildVirtualServerRoutes`: it attaches the referenced route, or warns; a route that is
+already attached (referenced by name and by namespace/name, or under nested paths) is not attached again (fix of S-C07-i). -/
+def vsrStep (vsrs : Map VSR) (v : VS) (acc : List Meta × List String) (pr : String × String) : List Meta × List String :=
+  match routeOf vsrs v pr with
+  | some m => if acc.1.any (fun a => a.key = m.key) then (acc.1, acc.2 ++ [wVsrDuplicate m.key]) else (acc.1 ++ [m], acc.2)
+  | none =>
+    match routeWarnOf vsrs v pr with
+    | some w => (acc.1, acc.2 ++ [w])
+    | none => acc
+
+/-- `buildVirtualServerRoutes`: every `route` entry, in order. -/
 def buildVsrs (vsrs : Map VSR) (v : VS) : List Meta × List String :=
-  (v.routes.filterMap (routeOf vsrs v), v.routes.filterMap (routeWarnOf vsrs v))
+  v.routes.foldl (vsrStep vsrs v) ([], [])
 
 def listenerMap (gc : Option (List Listener)) : Map Listener :=
   match gc with
